@@ -150,8 +150,13 @@ def run_task(task):
             if fi is None:
                 out['unsupported'] = 'function %s not found in /repo' % name
                 return out
+            import ast as _ast
             out['info'] = {'file': os.path.relpath(fi.path, prog.repo), 'qualname': name,
-                           'lines': [fi.lineno, fi.end_lineno], 'sha256': fi.sha256}
+                           'lines': [fi.lineno, fi.end_lineno], 'sha256': fi.sha256,
+                           # loop invariants are keyed by loop ordinal: the number of loops is
+                           # part of what a sidecar contract assumes about the function
+                           'n_loops': sum(isinstance(x, (_ast.For, _ast.While))
+                                          for x in _ast.walk(fi.node))}
             axs, assumed, used = resolve_axioms(con.lemmas)
             out['assumed'], out['lemmas_used'] = assumed, used
             try:
